@@ -35,6 +35,7 @@ import (
 	"encoding/json"
 	"fmt"
 	"os"
+	"runtime"
 	"runtime/debug"
 	"runtime/pprof"
 	"sort"
@@ -711,28 +712,57 @@ type replay struct {
 	Choices []int    `json:"choices"`
 }
 
-func report(c *mc.Ctx, s *source, cfg config, ch *mc.Chooser, r *result) {
+// stats accumulates the figures of one task (one Explore call, single-threaded) and is
+// flushed into the run context once, to keep the global mutex out of the hot path.
+type stats struct {
+	counts   map[string]int64
+	outcomes map[string]struct{}
+	nontriv  map[string]struct{}
+}
+
+func newStats() *stats {
+	return &stats{counts: map[string]int64{}, outcomes: map[string]struct{}{}, nontriv: map[string]struct{}{}}
+}
+
+func (st *stats) flush(c *mc.Ctx) {
+	for k, v := range st.counts {
+		c.Count(k, v)
+	}
+	for k := range st.outcomes {
+		c.Outcome(k)
+	}
+	for k := range st.nontriv {
+		c.Nontrivial(k)
+	}
+}
+
+func report(c *mc.Ctx, st *stats, s *source, cfg config, ch *mc.Chooser, r *result) {
 	dev := ch.Deviations()
-	c.Count("outcome_"+strings.SplitN(r.outcome, ":", 2)[0], 1)
-	c.Count("messages_accepted_by_interceptor", int64(r.accepted))
-	c.Count("messages_rejected_by_interceptor", int64(r.rejected))
-	c.Count("messages_panicking_in_interceptor", int64(len(r.panics)))
+	st.counts["outcome_"+strings.SplitN(r.outcome, ":", 2)[0]]++
+	st.counts["messages_accepted_by_interceptor"] += int64(r.accepted)
+	st.counts["messages_rejected_by_interceptor"] += int64(r.rejected)
+	if len(r.panics) > 0 {
+		st.counts["messages_panicking_in_interceptor"] += int64(len(r.panics))
+	}
 	if r.unknown > 0 {
-		c.Count("requests_for_hashes_outside_source_trie", int64(r.unknown))
+		st.counts["requests_for_hashes_outside_source_trie"] += int64(r.unknown)
 	}
 	kinds := append([]string{}, r.kinds...)
 	sort.Strings(kinds)
-	c.Outcome(fmt.Sprintf("%d|%s|%d|%v", cfg.Syncer, r.outcome, r.rounds, kinds))
+	st.outcomes[fmt.Sprintf("%d|%s|%d|%v", cfg.Syncer, r.outcome, r.rounds, kinds)] = struct{}{}
 	if dev > 0 && r.outcome == "synced" {
-		c.Nontrivial(fmt.Sprintf("%d|%v|%v", s.ID, cfg, kinds))
+		st.nontriv[fmt.Sprintf("%d|%v|%v", s.ID, cfg, kinds)] = struct{}{}
 		for _, k := range r.kinds {
-			c.Count("synced_with_deviation_"+k, 1)
+			st.counts["synced_with_deviation_"+k]++
 		}
 	}
 	if strings.HasPrefix(r.outcome, "panic:") {
-		c.Count("syncer_panics", 1)
+		st.counts["syncer_panics"]++
+		if c.WantSample() {
+			c.Sample(map[string]interface{}{"keys": s.Keys, "cfg": cfg, "trace": r.trace, "outcome": r.outcome})
+		}
 	}
-	if dev > 0 && c.WantSample() && len(s.Keys) >= 3 && r.outcome == "synced" {
+	if dev > 1 && len(s.Keys) >= 3 && r.outcome == "synced" && c.WantSample() {
 		c.Sample(map[string]interface{}{"keys": s.Keys, "cfg": cfg, "trace": r.trace, "outcome": r.outcome})
 	}
 	for _, v := range r.viol {
@@ -760,10 +790,10 @@ func main() {
 		}
 		vtime.SetLogical(true)
 		vtime.AfterHook = afterHook
-		w := mc.Workers()
-		if w > maxSlots {
-			w = maxSlots
-		}
+		// Every execution is a ping-pong between two goroutines; with idle Ps around, each
+		// hand-off wakes another OS thread (futex) that then steals the goroutine. Keeping
+		// GOMAXPROCS at the number of workers avoids that.
+		runtime.GOMAXPROCS(mc.Workers())
 		slots = make(chan int, maxSlots)
 		for i := 0; i < maxSlots; i++ {
 			slots <- i
@@ -778,7 +808,9 @@ func main() {
 			s := buildSource(0, rp.Keys)
 			var r *result
 			ch := mc.Replay(rp.Choices, func(ch *mc.Chooser) { r = runOne(s, rp.Cfg, ch) })
-			report(c, s, rp.Cfg, ch, r)
+			st := newStats()
+			report(c, st, s, rp.Cfg, ch, r)
+			st.flush(c)
 			fmt.Printf("replay: outcome=%s rounds=%d schedule=%v violations=%d\n", r.outcome, r.rounds, r.trace, len(r.viol))
 			return
 		}
@@ -852,27 +884,11 @@ func main() {
 					ncOther++
 				}
 			}
-			for _, g := range s.garbage {
-				var cls string
-				perr := mc.Try(func() {
-					n, err := trie.NewInterceptedTrieNode(g, marsh, hasher)
-					if err != nil {
-						cls = "rejected-by-decoder"
-						return
-					}
-					if err = n.CheckValidity(); err != nil {
-						cls = "rejected-by-CheckValidity"
-						return
-					}
-					cls = "accepted-as-node"
-				})
-				if perr != "" {
-					cls = "panic"
-					if i := strings.Index(perr, " @ "); i > 0 {
-						panicsSeen[perr[:i]+" <"+hx(g[:min(len(g), 4)])+"..>"] = true
-					}
-				}
-				garb[cls]++
+			for k, v := range s.garbageClass {
+				garb[k] += v
+			}
+			for _, p := range s.panics {
+				panicsSeen[p] = true
 			}
 		}
 		ps := []string{}
@@ -915,12 +931,14 @@ func main() {
 					return
 				}
 				t := tasks[i]
+				acc := newStats()
 				stt := mc.Explore(c, st.bound, 1, func(ch *mc.Chooser) {
 					r := runOne(t.s, t.cfg, ch)
-					report(c, t.s, t.cfg, ch, r)
+					report(c, acc, t.s, t.cfg, ch, r)
 				})
-				c.Count("executions", stt.Executions)
-				c.Count("executions_"+st.name, stt.Executions)
+				acc.counts["executions"] += stt.Executions
+				acc.counts["executions_"+st.name] += stt.Executions
+				acc.flush(c)
 			})
 			desc = append(desc, fmt.Sprintf("%s: %d tasks (tries of <=%d keys x syncers), deviation bound %d, cfg %+v, %d executions, %.0fs",
 				st.name, len(tasks), st.maxKeys, st.bound, st.cfgs[1], c.Counter("executions")-before, time.Since(t0).Seconds()))
